@@ -523,6 +523,12 @@ def run_unit(unit: str, dst: str, root: str):
         locs = [int(x) for x in re.findall(r"-->\s*\S+?:(\d+):\d+", blk_main)][:1]
         errors.append({"head": head, "lines": locs, "text": blk_main[:1500]})
     vth.join()
+    if out_of_reach and (vac.get("res") is None or vac["res"][0] is None):
+        # the probe ran on the text BEFORE the runner isolated the rejected function(s): repeat it on the final text
+        try:
+            vac["res"] = run_vacuity(unit, text, vdir)
+        except Exception as e:
+            vac["err"] = str(e)
     res = {"unit": unit, "wall": wall, "verified": vr.get("verified", 0), "errors_n": vr.get("errors", 0), "out_of_reach": out_of_reach,
            "vacuity": vac,
            "fns": [], "rewrites": ex.rewrites, "functions": ex.functions, "path": path, "raw_err": p.stderr[-4000:],
@@ -613,7 +619,7 @@ def run_for_property(pid, tier, seed, dst, root, rep, findings):
         ntotal = 0
         vres = r.get("vacuity", {}).get("res")
         if vres is None or vres[0] is None:
-            rep.undecided.append(f"verus {unit}: vacuity probe (every function with `ensures false` must fail) gave no answer: " + str(r.get("vacuity", {}).get("err", "timeout"))[:300])
+            rep.undecided.append(f"verus {unit}: vacuity probe (every function with `ensures false` must fail) gave no answer: " + str(r.get("vacuity", {}).get("err", "the probe variant was rejected by Verus or timed out"))[:300])
         else:
             vacuous, vwall, vnames = vres
             rep.extra.setdefault("vacuity_probe", []).append({"unit": unit, "functions_probed": len(vnames), "all_refute_ensures_false": not vacuous, "wall_s": round(vwall, 1)})
